@@ -607,3 +607,133 @@ pub fn lossy_phases_scenario(ch: &mut Chooser, _thorough: bool) -> Exec {
     }
     Exec { outcome: Digest::of64(&obs), violation, features: vec![] }
 }
+
+/// C13, one side goes away while the other keeps writing: the connector drops its stream
+/// (without reading) after `a_wait` rounds; the acceptor writes `n` bytes in one call
+/// (blocking on its send buffer if need be), then drops. No loss, FIFO wire, one round of
+/// latency. After both have dropped, everything but the listener has to be reclaimed within
+/// a bounded number of rounds, whatever the write ran into (an error is fine, a hang is not).
+pub fn orphan_scenario(ch: &mut Chooser, _thorough: bool) -> Exec {
+    let caps = *ch.of("send_recv_caps", &[(2usize, 2usize), (8, 4), (4, 8), (64, 64)]);
+    let n: usize = *ch.of("acceptor_writes_bytes", &[1usize, 3, 10, 40]);
+    let a_wait: u32 = *ch.of("connector_drops_after_rounds", &[0u32, 2, 6]);
+    let b_wait: u32 = *ch.of("acceptor_starts_writing_after_rounds", &[0u32, 4]);
+    let kc = KernelConfig::default().mtu(42).send_buf_cap(caps.0).recv_buf_cap(caps.1);
+    let mut net = Net::with_config(kc);
+    let (cip, sip): (IpAddr, IpAddr) = ("10.0.0.1".parse().unwrap(), "10.0.0.2".parse().unwrap());
+    let c = net.add_host(cip);
+    let s = net.add_host(sip);
+    let hosts = [c, s];
+    let guard = net.enter();
+    let round: Rc<RefCell<u32>> = Rc::new(RefCell::new(0));
+    #[derive(Default)]
+    struct Log {
+        done: [bool; 2],
+        notes: Vec<String>,
+    }
+    let log: Rc<RefCell<Log>> = Rc::new(RefCell::new(Log::default()));
+    async fn wait_rounds(round: &Rc<RefCell<u32>>, n: u32) {
+        let until = *round.borrow() + n;
+        std::future::poll_fn(|cx| {
+            if *round.borrow() >= until {
+                std::task::Poll::Ready(())
+            } else {
+                cx.waker().wake_by_ref();
+                std::task::Poll::Pending
+            }
+        })
+        .await;
+    }
+    let mut exec = Executor::new();
+    {
+        let (log, round) = (log.clone(), round.clone());
+        exec.spawn(1, async move {
+            let Ok(l) = TcpListener::bind(SocketAddr::new(sip, 80)).await else { return };
+            let Ok((mut st, _)) = l.accept().await else { return };
+            wait_rounds(&round, b_wait).await;
+            let data: Vec<u8> = (0..n).map(|i| i as u8).collect();
+            let r = st.write_all(&data).await;
+            log.borrow_mut().notes.push(format!("acceptor write_all({n}) -> {:?}", r.map_err(|e| errk(&e))));
+            drop(st);
+            log.borrow_mut().done[1] = true;
+            std::future::pending::<()>().await;
+            drop(l);
+        });
+    }
+    {
+        let (log, round) = (log.clone(), round.clone());
+        exec.spawn(0, async move {
+            let st = match TcpStream::connect(SocketAddr::new(sip, 80)).await {
+                Ok(s) => s,
+                Err(e) => {
+                    log.borrow_mut().notes.push(format!("connect: {}", errk(&e)));
+                    log.borrow_mut().done[0] = true;
+                    return;
+                }
+            };
+            wait_rounds(&round, a_wait).await;
+            drop(st);
+            log.borrow_mut().done[0] = true;
+        });
+    }
+    let mut wire: VecDeque<(u32, turmoil_net::Packet)> = VecDeque::new();
+    let horizon = 400u32;
+    let mut closed_at: Option<u32> = None;
+    let mut reclaimed_at: Option<u32> = None;
+    for r in 0..horizon {
+        *round.borrow_mut() = r;
+        while wire.front().map(|(t, _)| *t <= r).unwrap_or(false) {
+            let (_, p) = wire.pop_front().unwrap();
+            guard.deliver(p);
+        }
+        exec.run_until_stalled(4000, |tag| turmoil_net::set_current(hosts[tag as usize]));
+        let mut out = vec![];
+        guard.egress_all(&mut out);
+        for p in out {
+            if std::env::var_os("VX_TRACE").is_some() {
+                eprintln!("round {r}: emit {}", crate::wire::pkt_key(&p));
+            }
+            wire.push_back((r + 1, p));
+        }
+        let l = log.borrow();
+        if l.done[0] && l.done[1] && closed_at.is_none() {
+            closed_at = Some(r);
+        }
+        if closed_at.is_some() {
+            let (cc, sc) = (turmoil_net::verif_counts(cip), turmoil_net::verif_counts(sip));
+            if cc.0 == 0 && sc.0 == 1 {
+                reclaimed_at = Some(r);
+                break;
+            }
+        }
+    }
+    let l = log.borrow();
+    let mut violation: Option<Violation> = None;
+    if !(l.done[0] && l.done[1]) {
+        violation = Some(Violation::new(
+            "stall",
+            format!("the connector dropped its stream, the acceptor's write_all({n}) neither completed nor failed within {horizon} rounds (caps {caps:?}); notes {:?}", l.notes),
+        ));
+    } else if reclaimed_at.is_none() {
+        violation = Some(Violation::new(
+            "not-reclaimed",
+            format!(
+                "both sides dropped the connection by round {:?}; {horizon} rounds into the run the socket tables hold (sockets, bindings, connections) connector {:?}, acceptor {:?}, expected nothing but the listener; notes {:?}",
+                closed_at,
+                turmoil_net::verif_counts(cip),
+                turmoil_net::verif_counts(sip),
+                l.notes
+            ),
+        ));
+    }
+    drop(l);
+    drop(exec);
+    drop(guard);
+    let obs = format!("caps={caps:?} n={n} a_wait={a_wait} b_wait={b_wait} closed_at={closed_at:?} reclaimed_at={reclaimed_at:?}");
+    if let Some(v) = violation.as_mut() {
+        v.sig = format!("orphan|{}", v.clause);
+        v.scenario = format!("c13-orphan {obs}");
+        v.actions = vec![obs.clone()];
+    }
+    Exec { outcome: Digest::of64(&obs), violation, features: vec![] }
+}
